@@ -99,14 +99,19 @@ def child_seqs(total):
     return out
 
 
-def write_task(shape, uuid):
-    """Independent writer of a well-formed task's messages (emission order)."""
+CLOCKS = ["monotone", "running-backwards", "sub-trees-logged-by-hosts-whose-clock-is-behind", "standing-still"]
+
+
+def write_task(shape, uuid, clock=0):
+    """Independent writer of a well-formed task's messages (emission order).  Timestamps are whatever the clocks of the
+    hosts that logged the parts of the task said: nothing about a task's shape depends on them."""
     out = []
     counter = [0]
 
     def emit(level, extra):
         counter[0] += 1
-        m = {"task_uuid": uuid, "task_level": list(level), "timestamp": float(counter[0]), "n": counter[0]}
+        ts = [float(counter[0]), 1000.0 - counter[0], counter[0] - 50.0 * len(level), 5.0][clock % 4]
+        m = {"task_uuid": uuid, "task_level": list(level), "timestamp": ts, "n": counter[0]}
         m.update(extra)
         out.append(m)
 
@@ -338,13 +343,15 @@ def limits():
 
 
 def check_synth(case):
-    tasks = [write_task(shape, "task-%d" % i) for i, shape in enumerate(case["shapes"])]
+    tasks = [write_task(shape, "task-%d" % i, case.get("clock", 0) + i) for i, shape in enumerate(case["shapes"])]
     pl, sl = limits()
     return check_messages(tasks, case["orders"], case["subsets"], pl, sl)
 
 
 def classify(case, info):
     labels = ["n=%s" % min(info["n"], 15) if info["n"] < 15 else "n>=15", "depth=%d" % min(info["depth"], 6), "tasks=%d" % len(case.get("shapes", case.get("tasks", [])))]
+    if "shapes" in case:
+        labels.append("clock:" + CLOCKS[case.get("clock", 0) % 4])
     if info["exhaustive_perms"]:
         labels.append("all-permutations")
     if info["exhaustive_subsets"]:
@@ -363,7 +370,8 @@ def orders_strategy():
 
 def synth_strategy():
     return st.builds(
-        lambda orders, subsets, shapes: {"shapes": shapes, "orders": orders, "subsets": subsets},
+        lambda clock, orders, subsets, shapes: {"clock": clock, "shapes": shapes, "orders": orders, "subsets": subsets},
+        st.integers(0, 3),
         orders_strategy(),
         st.lists(st.integers(1, 2**40), max_size=12),
         st.lists(tree_shapes(4), min_size=1, max_size=3),
@@ -385,6 +393,8 @@ def enumerated_runner(mod, facet, tier, seed, shard, nshards, stats):
             for sa in (["m"] if a == 1 else shapes_with(a)):
                 for sb in (["m"] if b == 1 else shapes_with(b)):
                     cases.append({"shapes": [sa, sb], "orders": [], "subsets": []})
+    for i, c in enumerate(cases):
+        c["clock"] = i % 4
     stats.extra["enumerated_shapes_up_to_messages"] = top
     enumerate_cases(mod, facet, cases, shard, nshards, stats)
 
